@@ -28,7 +28,7 @@ ASSUMPTIONS = [
 OUTSIDE = [
     "values mitmproxy accepts although the property calls them invalid (port -1 / 70000, host containing a space) are only "
     "required to be applied completely, not to be rejected",
-    "documents with more picks than the bound; trailers are exercised in the thorough tier only",
+    "documents with more picks than the bound; trailers, port 70000 and <=3-pick documents on response-less / TCP flows are exercised in the thorough tier only",
     "view.update() notification after the edit",
 ]
 ENCODED = [
@@ -57,7 +57,7 @@ def _menu(tier):
     req = {
         "method": [("valid", "PATCH")],
         "host": [("valid", "example.org"), ("space", "bad host")],
-        "port": [("valid", 123), ("x", "x"), ("negative", -1), ("70000", 70000)],
+        "port": [("valid", 123), ("x", "x"), ("negative", -1)],
         "headers": HDR_KINDS,
         "content": CONTENT_KINDS,
         "foo": [("unknown-key", 1)],
@@ -78,7 +78,7 @@ def _menu(tier):
     if tier != "quick":
         m += _flatten(
             ("request", {"trailers": HDR_KINDS[:2], "scheme": [("valid", "https")], "path": [("valid", "/other")],
-                         "http_version": [("valid", "HTTP/2.0")], "port": [("numeric-str", "8080"), ("none", None)]}),
+                         "http_version": [("valid", "HTTP/2.0")], "port": [("70000", 70000), ("numeric-str", "8080"), ("none", None)]}),
             ("response", {"trailers": HDR_KINDS[:2], "http_version": [("valid", "HTTP/1.0")], "code": [("none", None), ("numeric-str", "302")]}),
             ("", {"request": [("non-dict", 5)], "response": [("non-dict", "x")]}),
         )
@@ -96,7 +96,7 @@ def _menu_small():
 
 
 FLOWS = [("http+response", False), ("http+response", True), ("http-no-response", False), ("tcp", False),
-         ("http-no-response", True), ("tcp", True)]
+         ("http-no-response", True), ("tcp", True)]  # quick: put-atomic uses the first two, put-atomic-other-flows the rest
 
 
 def _strip(state):
@@ -223,19 +223,27 @@ def h_put(X, menu, K, flows):
 
 def obligations(tier):
     menu = _menu(tier)
-    flows = FLOWS[:4] if tier == "quick" else FLOWS
-    fl = "{HTTP with response (fresh / already edited once), HTTP without response, TCP}" if tier == "quick" else \
+    quick = tier == "quick"
+    flows = FLOWS[:2] if quick else FLOWS
+    fl = "HTTP flow with response x {fresh, already edited once}" if quick else \
         "{HTTP with response, HTTP without response, TCP} x {fresh flow, flow already edited once}"
+    reach = ["applied", "rejected-unknown-key", "rejected-malformed-value", "rejected-after-earlier-edit"]
     obs = [
         Symx("put-atomic", lambda X: h_put(X, menu, 3, flows),
              bounds=f"every edit document of 1..3 (section, key, value-kind) picks in every order from a {len(menu)}-entry menu "
-                    f"(valid and invalid ports, codes, header lists, contents, hosts, unknown keys) x flow {fl}",
-             encoded=ENCODED, must_reach=["applied", "rejected-unknown-key", "rejected-malformed-value", "rejected-after-earlier-edit"], parallel_depth=3),
+                    f"(valid and invalid ports, codes, header lists, contents, hosts, unknown keys) x {fl}",
+             encoded=ENCODED, must_reach=reach, parallel_depth=3),
     ]
-    if tier != "quick":
+    if quick:
+        qmenu = _menu("quick")
+        obs.append(Symx("put-atomic-other-flows", lambda X: h_put(X, qmenu, 2, FLOWS[2:]),
+                        bounds=f"every edit document of 1..2 picks in every order from the same {len(qmenu)}-entry menu x "
+                               "{HTTP flow without response, TCP flow} x {fresh, already edited once}",
+                        encoded=ENCODED, must_reach=reach, parallel_depth=2))
+    else:
         small = _menu_small()
         obs.append(Symx("put-atomic-4picks", lambda X: h_put(X, small, 4, FLOWS),
                         bounds=f"every edit document of 1..4 picks in every order from a {len(small)}-entry menu x flow "
                                "{HTTP with response, HTTP without response, TCP} x {fresh, already edited once}",
-                        encoded=ENCODED, must_reach=["applied", "rejected-unknown-key", "rejected-malformed-value", "rejected-after-earlier-edit"], parallel_depth=3))
+                        encoded=ENCODED, must_reach=reach, parallel_depth=3))
     return obs
